@@ -231,9 +231,13 @@ def creates_cycle(tabs, col_id, formula):
 # found there are pinned by the fixed WITNESSES below instead.
 MIX = {"update": 16, "bulk_update": 10, "add": 10, "bulk_add": 6, "remove": 8, "bulk_remove": 4,
        "add_temp": 3, "upsert": 2, "rename_col": 3, "rename_table": 1, "add_col": 3, "add_table": 1,
-       "label": 1, "invalid": 1, "formula": 26, "multi": 14, "list_edit": 8}
+       "label": 1, "invalid": 1, "formula": 26, "multi": 14, "list_edit": 8, "rekey": 10}
 MULTI_KINDS = ["add", "update", "update", "update", "remove", "bulk_update", "bulk_update", "formula",
-               "formula", "rename_col", "add_col", "invalid", "list_edit"]
+               "formula", "rename_col", "add_col", "invalid", "list_edit", "rekey"]
+
+# lookups of the document, read off the formula texts: Table.lookupRecords / lookupOne(key=[CONTAINS(]$col
+LOOKUP_CALL = re.compile(r"([A-Za-z_][A-Za-z_0-9]*)\.lookup(?:Records|One)\(\s*([A-Za-z_][A-Za-z_0-9]*)\s*="
+                         r"\s*(CONTAINS\(\s*)?\$([A-Za-z_][A-Za-z_0-9]*)")
 
 
 # One small edit of a list-valued cell (RefList / ChoiceList): the new value is DERIVED from the
@@ -354,6 +358,57 @@ class C05Monitor(explore.Monitor):
       if ids: st["touch"] = (target, ids)
     return ["UpdateRecord", t, r, {c[0]: ["L"] + new}]
 
+  def rekey(self, e, g):
+    """An edit after which a looked-up row NEWLY MATCHES a looking-up row: for a lookup
+    T.lookupRecords(K=$x) found in a formula of table H (K a data column of T), some row of T whose
+    K differs from H.x[r] gets K = H.x[r]; half of the time another data cell of H's row r is
+    edited in the same bundle (the looking-up row is then dirty for a second, independent reason).
+    Which rows start to match is known to the engine only once the lookup index is recalculated."""
+    rng = g.rng
+    tabs = g.doc(e)
+    cands = []
+    for h in tabs:
+      for c in tabs[h][0]:
+        for m in LOOKUP_CALL.finditer(c[3] or "") if c[2] else ():
+          T, K, contains, x = m.group(1), m.group(2), bool(m.group(3)), m.group(4)
+          kc = [d for d in tabs.get(T, ((), ()))[0] if d[0] == K and not d[2]]
+          xs = x == "id" or any(d[0] == x for d in tabs[h][0])
+          if kc and xs and tabs[T][1] and tabs[h][1] and "_summary_" not in T:
+            cands.append((h, x, T, kc[0], contains))
+    if not cands: return None
+    h, x, T, kc, contains = rng.choice(cands)
+    def cell(tab, col, r):
+      if col == "id": return r
+      try: return e.tables[tab].get_column(col).raw_get(r)
+      except Exception: return None
+    r = rng.choice(tabs[h][1])
+    v = cell(h, x, r)
+    if hasattr(v, "_row_id"): v = v._row_id
+    if isinstance(v, (list, tuple, dict)) or v is None and rng.random() < 0.7: return None
+    def same(a, b):
+      return type(a) is type(b) and a == b
+    if contains:
+      is_reflist = kc[1].startswith("RefList")
+      if is_reflist and not isinstance(v, int): return None
+      rows = []
+      for q in tabs[T][1]:
+        cur = cell(T, kc[0], q)
+        cur = list(cur) if isinstance(cur, (list, tuple)) else []
+        if not any(same(y, v) for y in cur): rows.append((q, ["L"] + cur + [v]))
+    else:
+      rows = [(q, v) for q in tabs[T][1] if not same(cell(T, kc[0], q), v)]
+    if not rows: return None
+    q, newval = rng.choice(rows)
+    acts = [["UpdateRecord", T, q, {kc[0]: newval}]]
+    if rng.random() < 0.5:
+      data = [d for d in tabs[h][0] if not d[2] and d[0] not in ("manualSort", x)
+              and not (h == T and d[0] == kc[0])]
+      if data and "_summary_" not in h:
+        d = rng.choice(data)
+        acts.append(["UpdateRecord", h, r, {d[0]: rng.choice(gen.values_for(d[1], rng, e, g.rows_of(e)))}])
+        rng.shuffle(acts)
+    return ("MULTI", acts)
+
   def touch(self, st, e, g):
     """UpdateRecord of data fields of a row that an edited RefList cell referenced or references."""
     target, ids = st.pop("touch")
@@ -377,6 +432,9 @@ class C05Monitor(explore.Monitor):
     if kind == "list_edit":
       a = self.list_edit(st, e, g)
       return [a] if a else []
+    if kind == "rekey":
+      a = self.rekey(e, g)
+      return list(a[1]) if a else []
     a = g.action(e, kind)
     return list(a[1]) if isinstance(a, tuple) else [a]
 
@@ -801,7 +859,8 @@ def main():
     "PREVIOUS/NEXT/RANK, cross-table chains) instantiated on the current document and kept "
     "statically acyclic; the other bundles are record adds / updates / removals (single, bulk, "
     "temporary ids, upserts), small edits of the current value of a RefList / ChoiceList cell "
-    "followed by an edit of a row it referenced, column / table renames, added data columns and tables, label edits, "
+    "followed by an edit of a row it referenced, key edits after which a looked-up row newly "
+    "matches a looking-up row (alone or together with an edit of another input of that row), column / table renames, added data columns and tables, label edits, "
     "invalid actions and multi-action bundles of those (see action_mix; NARROWED BOUND: see "
     "outside_the_bound); numbers are compared by value (1 == 1.0); non-trivial = the bundle "
     "changed the document or raised")
